@@ -73,6 +73,15 @@ CHECKS["C16"] = {
     "note": BFT_NOTE, "design_ref": "§7 C16",
 }
 
+CHECKS["C06"] = {
+    "category": "model_checking",
+    "technique": "TLA+ MC_Progress.tla (good-period scheduler) checked by TLC for liveness under weak fairness; good-period continuation (T5) of every recorded prefix on the real replicas",
+    "text": "Model: Progress and BoundedProgress for all good-period schedules, three leader orders, with a weakened-spec vacuity guard. Code: after every "
+            "adversarial prefix the real replicas are run synchronously (real inbound queue, timers at quiescence, block fetch) and must all store a new block.",
+    "note": BFT_NOTE + " Good period = global quiescence before timers; bound on timer rounds is generous, not minimal.",
+    "design_ref": "§7 C06",
+}
+
 NOT_YET = "check not built yet (construction in progress; see DESIGN.md §11 build order)"
 NA_REASONS = {}
 
